@@ -6,7 +6,7 @@
    Statements only; the proofs are in Lang/OpsFacts.v and Lang/SemFacts.v.
    Every theorem holds for ALL float_ops records (and all rule metadata / literal decoders). *)
 From Coq Require Import Ascii String List ZArith Bool.
-From GV Require Import Lang.Value Lang.Syntax Lang.Store Lang.Sem Lang.OpsFacts Lang.SemFacts.
+From GV Require Import Lang.Value Lang.Syntax Lang.Store Lang.Sem Lang.OpsFacts Lang.SemFacts Lang.Parse Lang.ParseFacts.
 Import ListNotations.
 Local Open Scope Z_scope.
 
@@ -310,3 +310,66 @@ Theorem C01_logic_error_propagates_right : forall fo meta real_of p o l r e lv e
   eval_expr fo meta real_of (ELogic p o l r) e = (Err c, e2).
 Proof. exact logic_error_right. Qed.
 Print Assumptions C01_logic_error_propagates_right.
+
+(* ---------- 9. READING: precedence, left associativity, parentheses (Lang/Parse.v; proofs in Lang/ParseFacts.v) ----------
+   `parse` is the operator-precedence reader that the correspondence check ties to the generated
+   ANTLR parser on every run (same shape, or both reject).  The theorems characterise it completely:
+   it returns t exactly when t prints back to the token string, is well-sorted (arithmetic operands are
+   mathExpressions) and is in canonical form — every left child binds at least as tightly as its parent,
+   every right child strictly tighter — and there is at most one such tree. *)
+Local Close Scope Z_scope.
+Local Open Scope nat_scope.
+
+Theorem C01_operator_levels :
+  level (BA OMul) = level (BA ODiv) /\ level (BA OAdd) = level (BA OSub) /\ level (BA OAdd) < level (BA OMul) /\
+  (forall c a, level (BC c) < level (BA a)) /\ (forall l c, level (BL l) < level (BC c)) /\ level (BL LAnd) = level (BL LOr).
+Proof.
+  repeat split; try reflexivity.
+  - cbn; auto.
+  - intros c a; destruct a; cbn; auto.
+  - intros l c; cbn; auto.
+Qed.
+Print Assumptions C01_operator_levels.
+
+Theorem C01_reading_is_exactly_the_canonical_tree : forall ts t,
+  parse ts = Some t <-> (print t = ts /\ canon t /\ sorted t = true).
+Proof. exact parse_iff. Qed.
+Print Assumptions C01_reading_is_exactly_the_canonical_tree.
+
+Theorem C01_reading_unique : forall t1 t2, canon t1 -> canon t2 -> sorted t1 = true -> sorted t2 = true ->
+  print t1 = print t2 -> t1 = t2.
+Proof. exact reading_unique. Qed.
+Print Assumptions C01_reading_unique.
+
+(* x o1 y o2 z with o2 binding tighter: y belongs to o2 *)
+Theorem C01_tighter_operator_binds_first : forall o1 o2 x y z, top_level x = 5 -> top_level y = 5 -> top_level z = 5 ->
+  canon x -> canon y -> canon z -> level o1 < level o2 ->
+  sorted (SNode o1 x (SNode o2 y z)) = true ->
+  parse (print x ++ TOp o1 :: print y ++ TOp o2 :: print z) = Some (SNode o1 x (SNode o2 y z)).
+Proof. exact tighter_binds_first. Qed.
+Print Assumptions C01_tighter_operator_binds_first.
+
+(* x o1 y o2 z with o2 at the same level or looser: (x o1 y) o2 z — every binary operator associates to the left *)
+Theorem C01_binary_operators_associate_left : forall o1 o2 x y z, top_level x = 5 -> top_level y = 5 -> top_level z = 5 ->
+  canon x -> canon y -> canon z -> level o2 <= level o1 ->
+  sorted (SNode o2 (SNode o1 x y) z) = true ->
+  parse (print x ++ TOp o1 :: print y ++ TOp o2 :: print z) = Some (SNode o2 (SNode o1 x y) z).
+Proof. exact same_or_looser_associates_left. Qed.
+Print Assumptions C01_binary_operators_associate_left.
+
+Theorem C01_parentheses_override : forall o1 o2 x y z, canon x -> canon y -> canon z ->
+  top_level x = 5 -> level o1 <= top_level y -> level o1 < top_level z ->
+  sorted (SNode o2 x (SParen false (SNode o1 y z))) = true ->
+  parse (print x ++ TOp o2 :: TL :: print y ++ TOp o1 :: print z ++ [TR]) = Some (SNode o2 x (SParen false (SNode o1 y z))).
+Proof. exact parentheses_override. Qed.
+Print Assumptions C01_parentheses_override.
+
+(* non-vacuity: a0 + a1 * a2 < a3 && !a4 ; a0 - a1 - a2 ; (a0 + a1) * a2 ; and a sort error *)
+Theorem C01_reading_examples :
+  parse [TAtom 0; TOp (BA OAdd); TAtom 1; TOp (BA OMul); TAtom 2; TOp (BC CLt); TAtom 3; TOp (BL LAnd); TNot; TAtom 4]
+    = Some (SNode (BL LAnd) (SNode (BC CLt) (SNode (BA OAdd) (SLeaf false 0) (SNode (BA OMul) (SLeaf false 1) (SLeaf false 2))) (SLeaf false 3)) (SLeaf true 4)) /\
+  parse [TAtom 0; TOp (BA OSub); TAtom 1; TOp (BA OSub); TAtom 2] = Some (SNode (BA OSub) (SNode (BA OSub) (SLeaf false 0) (SLeaf false 1)) (SLeaf false 2)) /\
+  parse [TL; TAtom 0; TOp (BA OAdd); TAtom 1; TR; TOp (BA OMul); TAtom 2] = Some (SNode (BA OMul) (SParen false (SNode (BA OAdd) (SLeaf false 0) (SLeaf false 1))) (SLeaf false 2)) /\
+  parse [TL; TAtom 0; TOp (BC CLt); TAtom 1; TR; TOp (BA OAdd); TAtom 2] = None.
+Proof. vm_compute. repeat split. Qed.
+Print Assumptions C01_reading_examples.
